@@ -105,6 +105,10 @@ var selfMutants = []selfMutant{
 	{Rule: "R-INPUT", File: "input.go", Silent: true, Old: "	if z.err != nil {\n		return z.err\n	} else if len(z.buf)-1 <= z.pos+pos {\n		return io.EOF\n	}\n	return nil\n}", New: "	switch {\n	case z.err != nil:\n		return z.err\n	case z.atEnd(pos):\n		return io.EOF\n	}\n	return nil\n}\n\nfunc (z *Input) atEnd(i int) bool {\n	return len(z.buf)-1 <= z.pos+i\n}", Why: "PeekErr through a predicate helper and a tagless switch (behaviour-preserving)"},
 	{Rule: "R-WALK", File: "js/walk.go", Silent: true, Old: "	case *FuncDecl:\n		Walk(v, &n.Body)\n		Walk(v, &n.Params)\n", New: "	case *FuncDecl:\n		walkFuncParts(v, &n.Body, &n.Params)\n", Why: "function parts walked by a helper that receives their addresses (behaviour-preserving)"},
 	{Rule: "R-JSONKEY", File: "json/parse.go", Silent: true, Old: "func (p *Parser) State() State {\n	return p.state[len(p.state)-1]\n}", New: "func (p *Parser) State() State {\n	return p.top()\n}\n\nfunc (p *Parser) top() State {\n	return p.state[len(p.state)-1]\n}", Why: "State() through an accessor of the top of the stack (behaviour-preserving)"},
+	// tables computed by an initialiser closure (ssaeval.go) and tables written after initialisation (roglobal.go)
+	{Rule: "R-CURSOR", File: "js/lex.go", Only: "js", Silent: true, Old: "var identifierTable = [256]bool{\n", New: "var identifierTable = func() (t [256]bool) {\n	t = identifierStartTable\n	for c := byte('0'); c <= '9'; c++ {\n		t[c] = true\n	}\n	return\n}()\n\nvar identifierTableLit = [256]bool{\n", Why: "identifier table computed by its initialiser from the start table (behaviour-preserving)"},
+	{Rule: "R-CURSOR", File: "js/lex.go", Only: "js", Old: "var identifierTable = [256]bool{\n", New: "var identifierTable = func() (t [256]bool) {\n	t = identifierStartTable\n	for c := byte(0); c <= '9'; c++ {\n		t[c] = true\n	}\n	return\n}()\n\nvar identifierTableLit = [256]bool{\n", Why: "computed identifier table that includes the NUL byte"},
+	{Rule: "R-CURSOR", File: "js/lex.go", Only: "js", Old: "var identifierTable = [256]bool{\n", New: "func init() {\n	identifierTable[0] = true\n}\n\nvar identifierTable = [256]bool{\n", Why: "identifier table changed by an init function after its literal"},
 	// look-ahead index idiom (eng_idx.go): scan with Peek(n), move once — correct form must pass, the form that does not stop at NUL must not
 	{Rule: "R-CURSOR", File: "json/parse.go", Only: "json", Silent: true, Old: "	for {\n		if c := p.r.Peek(0); c != ' ' && c != '\\n' && c != '\\r' && c != '\\t' {\n			break\n		}\n		p.r.Move(1)\n	}\n}", New: "	n := 0\n	for c := p.r.Peek(n); c == ' ' || c == '\\n' || c == '\\r' || c == '\\t'; c = p.r.Peek(n) {\n		n++\n	}\n	p.r.Move(n)\n}", Why: "whitespace skipped with a look-ahead index and one Move (behaviour-preserving)"},
 	{Rule: "R-PROGRESS", File: "json/parse.go", Only: "json", Silent: true, Old: "	for {\n		if c := p.r.Peek(0); c != ' ' && c != '\\n' && c != '\\r' && c != '\\t' {\n			break\n		}\n		p.r.Move(1)\n	}\n}", New: "	n := 0\n	for c := p.r.Peek(n); c == ' ' || c == '\\n' || c == '\\r' || c == '\\t'; c = p.r.Peek(n) {\n		n++\n	}\n	p.r.Move(n)\n}", Why: "whitespace skipped with a look-ahead index and one Move (behaviour-preserving) "},
@@ -244,6 +248,15 @@ func SelfTest(r *core.Run, cfg core.LoadConfig) {
 			engCacheMu.Lock()
 			delete(engCache, prog)
 			engCacheMu.Unlock()
+			prog.Release()
+			releaseGlobalUses(prog)
+			foldMu.Lock()
+			for g := range foldCache {
+				if g.Pkg != nil && g.Pkg.Prog == prog.SSA {
+					delete(foldCache, g)
+				}
+			}
+			foldMu.Unlock()
 			results[i] = out
 		}(i, m)
 	}
